@@ -22,7 +22,9 @@ def schemas():
         SG.tdef("interface", "Archived", interfaces=["Node2"], fields=[SG.fdef("x", G.named("Int"))]),
         SG.tdef("object", "A", interfaces=["Node2"], fields=[SG.fdef("x", G.named("Int"))]), SG.tdef("object", "B", fields=[SG.fdef("y", G.named("Int"))]),
         SG.tdef("object", "Lone", fields=[SG.fdef("z", G.named("Int"))]),
-        SG.tdef("union", "U", members=["A", "B"]), SG.tdef("input", "In", input_fields=[SG.ival("a", G.named("Int")), SG.ival("r", G.nn(G.named("String")))])]}})
+        SG.tdef("union", "U", members=["A", "B"]), SG.tdef("input", "In", input_fields=[SG.ival("a", G.named("Int")), SG.ival("r", G.nn(G.named("String"))),
+                                                   # non-null input fields WITH a default: a nullable variable may be passed (the default stands in)
+                                                   SG.ival("first", G.nn(G.named("Int")), G.v_int("10")), SG.ival("tag", G.nn(G.named("String")), G.v_str("t"))])]}})
     return out
 
 
